@@ -145,7 +145,7 @@ def conv_case(draw, shard, tier):
     X = draw(gd.scales())
     third = dict(dus=draw(st.sampled_from([0, 0, 1, -1, 2, -2]) | gd.mixed_int(-100 * US, 100 * US)),
                  scale=draw(gd.scales()))
-    return dict(us=us, S=S, X=X, third=third, clone=draw(gd.clone_modes()))
+    return dict(us=us, S=S, X=X, third=third, clone=draw(gd.clone_modes(arith=True)))
 
 
 def check_same_instant(case):
@@ -225,7 +225,7 @@ def check_round_trip(case):
 
 @st.composite
 def offsets_case(draw, shard, tier):
-    return dict(us=draw(gd.instants(leap_days())), S=draw(gd.scales()), clone=draw(gd.clone_modes()))
+    return dict(us=draw(gd.instants(leap_days())), S=draw(gd.scales()), clone=draw(gd.clone_modes(arith=True)))
 
 
 def check_offsets(case):
